@@ -890,10 +890,27 @@ def r5_tables(ctx):
     ffs = ctx.need_fn(ep, R, r"^<util::ValidContentType as std::str::FromStr>::from_str$")
     ftt = ctx.need_fn(ep, R, r"^<util::ValidContentType as quote::ToTokens>::to_tokens$")
     fmt = ctx.need_fn(ds, R, r"^api_description::ApiEndpointBodyContentType::from_mime_type$")
-    emit = {}
-    for key, v, g in _match_table(qe, fas):
-        ls = Q.lits(v)
-        emit[key] = sorted(ls)[0] if len(ls) == 1 else None
+    # the macro's own pair as_static_str / from_str is decided the same way as dropshot's (see below): by interpretation over every
+    # variant and every string either function mentions — a match on constants, or a lookup in one constant table of (variant, string)
+    # rows (indexed by discriminant / searched by find_map) are the same two functions.  Match arms are read only as a fallback.
+    from . import absint as _A
+    from .lib_c07 import OTHER
+    emit, back = {}, {}
+    try:
+        decm = Q.decide_enum_string_tables(ep, fas, ffs, "util::ValidContentType")
+        emit = dict(decm["to"])
+        for s_, outs in decm["from"].items():
+            if s_ != OTHER and len(outs) == 1 and "refused" not in outs:
+                back[s_] = sorted(outs)[0]
+        ctx.notes["C19.R5.ValidContentType_decided_by"] = "interpretation"
+    except _A.LeavesFragment as e:
+        ctx.notes["C19.R5.ValidContentType_decided_by"] = "match arms (not interpretable: %s)" % e
+        for key, v, g in _match_table(qe, fas):
+            ls = Q.lits(v)
+            emit[key] = sorted(ls)[0] if len(ls) == 1 else None
+        for key, v, g in _match_table(qe, ffs):
+            if key is not None and v[0] == "agg" and v[2] == "Ok" and v[3] and v[3][0][0] == "agg":
+                back[key] = v[3][0][2]
     variants = [v["name"] for v in ep.adts["util::ValidContentType"]["variants"]] if "util::ValidContentType" in ep.adts else []
     # dropshot's from_mime_type does nothing but compare strings for equality, branch, iterate over array literals and build values: it is
     # decided by interpretation (lib_c07.decide_string_tables, on rules/absint.py) on every string it or mime_type() mentions, on every
@@ -901,10 +918,8 @@ def r5_tables(ctx):
     # through mime_type() are the same function.  Only when it leaves that fragment is the table read off its match arms instead.
     accept = {}
     try:
-        from . import absint as _A
-        from .lib_c07 import OTHER, decide_string_tables
         fmt_to = ctx.need_fn(ds, R, r"^api_description::ApiEndpointBodyContentType::mime_type$")
-        dec = decide_string_tables(ds, fmt_to, fmt, "api_description::ApiEndpointBodyContentType")
+        dec = Q.decide_enum_string_tables(ds, fmt_to, fmt, "api_description::ApiEndpointBodyContentType")
         for x in set(dec["from"]) | set(v for v in emit.values() if v):
             outs = dec["from"].get(x if x in dec["from"] else OTHER) or set()   # a string from_mime_type never mentions behaves as OTHER
             if x != OTHER and outs and "refused" not in outs:
@@ -915,10 +930,6 @@ def r5_tables(ctx):
         for key, v, g in _match_table(qd, fmt):
             if key is not None and v[0] == "agg" and v[2] == "Ok":
                 accept[key] = v[3][0][2] if v[3] and v[3][0][0] == "agg" else "?"
-    back = {}
-    for key, v, g in _match_table(qe, ffs):
-        if key is not None and v[0] == "agg" and v[2] == "Ok" and v[3] and v[3][0][0] == "agg":
-            back[key] = v[3][0][2]
     ctx.check(R, "mime:all-variants-have-a-string", sorted(emit) == sorted(variants) and all(emit.values()), "as_static_str: %s" % emit, fas)
     for var, s in sorted(emit.items()):
         ctx.check(R, "mime:%s:accepted-by-dropshot" % var, s in accept, "macro emits %r; from_mime_type accepts %s" % (s, sorted(accept)), fmt)
@@ -977,13 +988,42 @@ def r6_document(ctx):
     q = _q(ctx, "ds", inline=False)
     go = ctx.need_fn(ds, R, r"^api_description::ApiDescription::<Context>::gen_openapi$")
     fr = Q.Frame(go)
-    ops = [(bb, t) for bb, t in go.live_calls(r"default::Default::default$") if "openapiv3::Operation " in (t.get("resolved") or "") or "openapiv3::Operation>" in (t.get("callee_args") or "")]
-    if len(ops) != 1:
-        ctx.lost(R, "the single openapiv3::Operation::default() in gen_openapi (found %d)" % len(ops))
-        return
-    obb, ot = ops[0]
-    L = ot["dest"]["l"]
+    # the operation is identified by its role — the openapiv3::Operation value that is put into a path item's method slot — and its fields by
+    # whatever gives them their value: `Operation::default()` followed by field assignments / clone_from, or one struct literal
+    # `Operation { f: v, .., ..Default::default() }` (fields taken over from the default are not writes), or a mixture
+    is_default = lambda t: t[0] == "call" and re.search(r"default::Default::default$", t[1]) is not None
+    stored_ops = set()
+    for bb, t in go.live_calls(r"Option::<T>::(replace|insert|get_or_insert)$"):
+        src = _raw_place(go, t["args"][1]) if len(t["args"]) >= 2 else None
+        if src and not src["p"] and go.local_ty(src["l"]) == "openapiv3::Operation":
+            stored_ops.add(src["l"])
+    for bb, i, st in go.aggregates(r"option::Option$", "Some"):
+        src = _raw_place(go, st["rv"]["ops"][0]) if st["rv"]["ops"] else None
+        if src and not src["p"] and go.local_ty(src["l"]) == "openapiv3::Operation":
+            stored_ops.add(src["l"])
     got = {}
+    if len(stored_ops) == 1:
+        L = list(stored_ops)[0]
+        wd = [d for d in go.defs().get(L, []) if q._whole(d) and not go.blocks[d[0]]["cleanup"] and d[0] in go.reachable(0)]
+        if len(wd) != 1:
+            ctx.lost(R, "the single construction of the openapiv3::Operation that gen_openapi stores (found %d)" % len(wd))
+            return
+        obb, kind, node = wd[0]
+        if kind == "assign" and node["rv"]["rv"] == "agg" and node["rv"].get("adt") == "openapiv3::Operation":
+            for n, o in zip(node["rv"]["fields"], node["rv"]["ops"]):
+                v = q.ev_op(fr, o)
+                if not (v[0] == "field" and is_default(v[1])):
+                    got.setdefault(n, []).append((obb, v, "struct literal"))
+        elif not (kind == "call" and is_default(q.ev_def(fr, wd[0]))):
+            ctx.lost(R, "how the stored openapiv3::Operation is built (neither Operation::default() nor a struct literal)")
+            return
+    else:
+        ops = [(bb, t) for bb, t in go.live_calls(r"default::Default::default$") if "openapiv3::Operation " in (t.get("resolved") or "") or "openapiv3::Operation>" in (t.get("callee_args") or "")]
+        if len(ops) != 1:
+            ctx.lost(R, "the openapiv3::Operation stored into a method slot (stored locals: %d) / the single Operation::default() in gen_openapi (found %d)" % (len(stored_ops), len(ops)))
+            return
+        obb, ot = ops[0]
+        L = ot["dest"]["l"]
     for bb, i, st in go.stmts():
         pl = st["pl"]
         if pl["l"] == L and len(pl["p"]) == 1 and isinstance(pl["p"][0], dict) and st["rv"]["rv"] == "use":
@@ -1106,78 +1146,9 @@ def _parse_semver_by_paths(ctx, R, ep, q0, ps):
     ctx.check(R, "literal:no-prerelease-or-build", all(chk.values()), "parse_semver refuses literals whose pre-release / build metadata is not EMPTY: %s" % chk, ps)
 
 
-def r7_versions(ctx):
-    R = ctx.rule("C19.R7", "version-range syntax -> range kind: `..`=All, `..b`=Until(b), `a..`=From(a), `a..b`=FromUntil(a,b) with operands in source order; literal pairs are refused iff until < earliest; "
-                 "each kind emits the same-named ApiEndpointVersions constructor (from_until(earliest, until).unwrap() for FromUntil) with literals as semver::Version::new(major, minor, patch)", floor=14)
-    ep, ds = ctx.ep, ctx.ds
-    prod, T, P = _producer_template(ctx, R)
-    S = _leafname(P["self"])
-    kinds = [v["name"] for v in ep.adts["metadata::VersionRange"]["variants"]] if "metadata::VersionRange" in ep.adts else []
-    dkinds = [v["name"] for v in ds.adts["api_description::ApiEndpointVersions"]["variants"]] if "api_description::ApiEndpointVersions" in ds.adts else []
-    ctx.check(R, "kinds", sorted(kinds) == ["All", "From", "FromUntil", "Until"] and sorted(dkinds) == sorted(kinds), "macro kinds %s, dropshot kinds %s" % (kinds, dkinds), prod, nontrivial=False)
-    arms = _ctor_arms(T, P) or {}
-    valt = None
-    for arm, toks in sorted(arms.items()):
-        if toks and toks[-1][0] == "grp":
-            for a in Q.split_commas(toks[-1][2]):
-                if len(a) == 1 and a[0][0] == "alt" and all(len(g) == 1 and Q.leaves(g[0][0]) == {S + ".versions"} for g, _ in a[0][1]):
-                    valt = a[0]
-    if valt is None:
-        ctx.lost(R, "the versions alternative in the emitted constructor call")
-        return
-    fu = ctx.need_fn(ds, R, r"^api_description::ApiEndpointVersions::from_until$")
-    # which parameter of from_until is the earliest / the until bound: read off the ordered pair it builds
-    fu_params = ["?"] * fu.argc
-    qd = _q(ctx, "ds", inline=False)
-    for pbb, pi, pst in fu.aggregates(r"^api_description::OrderedVersionPair$"):
-        for n, o in zip(pst["rv"]["fields"], pst["rv"]["ops"]):
-            t = Q.strip_plumb(qd.ev_op(Q.Frame(fu), o))
-            if t[0] == "param" and 1 <= t[1] <= fu.argc:
-                fu_params[t[1] - 1] = n
-    by = {g[0][1]: toks for g, toks in valt[1]}
-    ctx.check(R, "emit:one-arm-per-kind", sorted(by) == sorted(kinds), "arms: %s" % sorted(by), prod)
-
-    def bound(tok, kind, idx):
-        """tok is the semver_expr alternative for field idx of VersionRange::kind."""
-        if tok[0] != "alt":
-            return False, "not a Literal/Identifier alternative"
-        base = ("field", ("as", ("field", P["self"], "versions"), kind), idx)
-        seen = {}
-        for g, toks in tok[1]:
-            if len(g) != 1 or Q.nosite(g[0][0]) != base:
-                return False, "chosen by %s, expected %s" % (Q.show_guards(g), Q.show(base))
-            seen[g[0][1]] = toks
-        if sorted(seen) != ["Identifier", "Literal"]:
-            return False, "arms %s" % sorted(seen)
-        lit = seen["Literal"]
-        ok = Q.sig(lit) == ["semver", "::", "Version", "::", "new", "("]
-        if ok:
-            parts = Q.split_commas(lit[5][2])
-            v = ("field", ("as", base, "Literal"), 0)
-            ok = len(parts) == 3 and all(len(p) == 1 and p[0][0] == "hole" and Q.nosite(p[0][1]) == ("field", v, n) for p, n in zip(parts, ("major", "minor", "patch")))
-        idt = seen["Identifier"]
-        ok2 = len(idt) == 1 and idt[0][0] == "hole" and Q.nosite(idt[0][1]) == ("field", ("as", base, "Identifier"), 0)
-        return ok and ok2, "Literal -> %s ; Identifier -> %s" % (cap(Q.show_toks(lit), 120), cap(Q.show_toks(idt), 80))
-    head = lambda toks, name: Q.sig(toks)[:5] == ["<>", "::", "ApiEndpointVersions", "::", name] and toks[0][1] == P["dropshot"]
-    if "All" in by:
-        ctx.check(R, "emit:All", head(by["All"], "All") and len(by["All"]) == 5, cap(Q.show_toks(by["All"])), prod)
-    for k in ("From", "Until"):
-        if k in by:
-            toks = by[k]
-            ok = head(toks, k) and len(toks) == 6 and toks[5][0] == "grp" and toks[5][1] == "(" and len(toks[5][2]) == 1
-            okb, why = bound(toks[5][2][0], k, 0) if ok else (False, "shape")
-            ctx.check(R, "emit:%s" % k, ok and okb, "%s ; bound: %s" % (cap(Q.show_toks(toks[:5])), why), prod)
-    if "FromUntil" in by:
-        toks = by["FromUntil"]
-        s = Q.sig(toks)
-        ok = head(toks, "from_until") and s[5:] == ["(", ".", "unwrap", "("] and not toks[8][2]
-        parts = Q.split_commas(toks[5][2]) if ok else []
-        ok = ok and len(parts) == 2 and all(len(p) == 1 for p in parts) and fu_params == ["earliest", "until"]
-        b0, w0 = bound(parts[0][0], "FromUntil", 0) if ok else (False, "shape")
-        b1, w1 = bound(parts[1][0], "FromUntil", 1) if ok else (False, "shape")
-        ctx.check(R, "emit:FromUntil", ok and b0 and b1, "from_until(%s) <- (field 0: %s, field 1: %s)" % (", ".join(str(p) for p in fu_params), b0, b1), prod)
-    # ---- parsing
-    pf = ctx.need_fn(ep, R, r"^<metadata::VersionRange as syn::parse::Parse>::parse$")
+def _version_parse_by_paths(ctx, R, ep, pf, kinds):
+    """Fallback of R7's parsing clauses when <VersionRange as Parse>::parse cannot be interpreted: each VersionRange variant is built once,
+    dominated by the parse sites of its operands in source order; the one ordering comparison refuses exactly on until < earliest."""
     q0 = _q(ctx, "ep", inline=False)
     fr = Q.Frame(pf)
     DD = [bb for bb, t in pf.live_calls(r"ParseBuffer::<'a>::parse$") if any("token::DotDot" in g for g in t.get("gargs", []))]
@@ -1249,6 +1220,114 @@ def r7_versions(ctx):
         if c and not okc and detail.startswith("ordering"):
             detail = "comparison %s(%s, %s) does not relate until to earliest as `until < earliest => Err`" % (c["op"], cap(Q.show(q0.ev_op(fr, c["a"])), 60), cap(Q.show(q0.ev_op(fr, c["b"])), 60))
     ctx.check(R, "parse:literal-pair-refused-iff-until<earliest", okc, detail, pf)
+
+
+def r7_versions(ctx):
+    R = ctx.rule("C19.R7", "version-range syntax -> range kind: `..`=All, `..b`=Until(b), `a..`=From(a), `a..b`=FromUntil(a,b) with operands in source order; literal pairs are refused iff until < earliest; "
+                 "each kind emits the same-named ApiEndpointVersions constructor (from_until(earliest, until).unwrap() for FromUntil) with literals as semver::Version::new(major, minor, patch)", floor=14)
+    ep, ds = ctx.ep, ctx.ds
+    prod, T, P = _producer_template(ctx, R)
+    S = _leafname(P["self"])
+    kinds = [v["name"] for v in ep.adts["metadata::VersionRange"]["variants"]] if "metadata::VersionRange" in ep.adts else []
+    dkinds = [v["name"] for v in ds.adts["api_description::ApiEndpointVersions"]["variants"]] if "api_description::ApiEndpointVersions" in ds.adts else []
+    ctx.check(R, "kinds", sorted(kinds) == ["All", "From", "FromUntil", "Until"] and sorted(dkinds) == sorted(kinds), "macro kinds %s, dropshot kinds %s" % (kinds, dkinds), prod, nontrivial=False)
+    arms = _ctor_arms(T, P) or {}
+    valt = None
+    for arm, toks in sorted(arms.items()):
+        if toks and toks[-1][0] == "grp":
+            for a in Q.split_commas(toks[-1][2]):
+                if len(a) == 1 and a[0][0] == "alt" and all(len(g) == 1 and Q.leaves(g[0][0]) == {S + ".versions"} for g, _ in a[0][1]):
+                    valt = a[0]
+    if valt is None:
+        ctx.lost(R, "the versions alternative in the emitted constructor call")
+        return
+    fu = ctx.need_fn(ds, R, r"^api_description::ApiEndpointVersions::from_until$")
+    # which parameter of from_until is the earliest / the until bound: read off the ordered pair it builds
+    fu_params = ["?"] * fu.argc
+    qd = _q(ctx, "ds", inline=False)
+    # (read off the value from_until returns, wherever the pair is built: in its body, or in the closure of `cond.then(|| ..)` /
+    # `.map(..)` whose captures are from_until's parameters)
+    pair_fields = _field_names(ds, "api_description::OrderedVersionPair") or []
+    for x in Q.walk(qd.ev_local(Q.Frame(fu), 0), guards=False):
+        if x[0] == "agg" and x[1] == "api_description::OrderedVersionPair" and len(x[3]) == len(pair_fields):
+            for n, o in zip(pair_fields, x[3]):
+                t = Q.strip_plumb(o)
+                if t[0] == "param" and 1 <= t[1] <= fu.argc:
+                    fu_params[t[1] - 1] = n if fu_params[t[1] - 1] in ("?", n) else "?%s+%s" % (fu_params[t[1] - 1], n)
+    by = {g[0][1]: toks for g, toks in valt[1]}
+    ctx.check(R, "emit:one-arm-per-kind", sorted(by) == sorted(kinds), "arms: %s" % sorted(by), prod)
+
+    def bound(tok, kind, idx):
+        """tok is the semver_expr alternative for field idx of VersionRange::kind."""
+        if tok[0] != "alt":
+            return False, "not a Literal/Identifier alternative"
+        base = ("field", ("as", ("field", P["self"], "versions"), kind), idx)
+        seen = {}
+        for g, toks in tok[1]:
+            if len(g) != 1 or Q.nosite(g[0][0]) != base:
+                return False, "chosen by %s, expected %s" % (Q.show_guards(g), Q.show(base))
+            seen[g[0][1]] = toks
+        if sorted(seen) != ["Identifier", "Literal"]:
+            return False, "arms %s" % sorted(seen)
+        lit = seen["Literal"]
+        ok = Q.sig(lit) == ["semver", "::", "Version", "::", "new", "("]
+        if ok:
+            parts = Q.split_commas(lit[5][2])
+            v = ("field", ("as", base, "Literal"), 0)
+            ok = len(parts) == 3 and all(len(p) == 1 and p[0][0] == "hole" and Q.nosite(p[0][1]) == ("field", v, n) for p, n in zip(parts, ("major", "minor", "patch")))
+        idt = seen["Identifier"]
+        ok2 = len(idt) == 1 and idt[0][0] == "hole" and Q.nosite(idt[0][1]) == ("field", ("as", base, "Identifier"), 0)
+        return ok and ok2, "Literal -> %s ; Identifier -> %s" % (cap(Q.show_toks(lit), 120), cap(Q.show_toks(idt), 80))
+    head = lambda toks, name: Q.sig(toks)[:5] == ["<>", "::", "ApiEndpointVersions", "::", name] and toks[0][1] == P["dropshot"]
+    if "All" in by:
+        ctx.check(R, "emit:All", head(by["All"], "All") and len(by["All"]) == 5, cap(Q.show_toks(by["All"])), prod)
+    for k in ("From", "Until"):
+        if k in by:
+            toks = by[k]
+            ok = head(toks, k) and len(toks) == 6 and toks[5][0] == "grp" and toks[5][1] == "(" and len(toks[5][2]) == 1
+            okb, why = bound(toks[5][2][0], k, 0) if ok else (False, "shape")
+            ctx.check(R, "emit:%s" % k, ok and okb, "%s ; bound: %s" % (cap(Q.show_toks(toks[:5])), why), prod)
+    if "FromUntil" in by:
+        toks = by["FromUntil"]
+        s = Q.sig(toks)
+        ok = head(toks, "from_until") and s[5:] == ["(", ".", "unwrap", "("] and not toks[8][2]
+        parts = Q.split_commas(toks[5][2]) if ok else []
+        ok = ok and len(parts) == 2 and all(len(p) == 1 for p in parts) and fu_params == ["earliest", "until"]
+        b0, w0 = bound(parts[0][0], "FromUntil", 0) if ok else (False, "shape")
+        b1, w1 = bound(parts[1][0], "FromUntil", 1) if ok else (False, "shape")
+        ctx.check(R, "emit:FromUntil", ok and b0 and b1, "from_until(%s) <- (field 0: %s, field 1: %s)" % (", ".join(str(p) for p in fu_params), b0, b1), prod)
+    # ---- parsing
+    # <VersionRange as Parse>::parse is small and its leaves (the token cursor) can be modelled exactly: it is decided by interpretation on
+    # every input of the range language (lib_c19.decide_version_range_parse) — one function or several, `?` / match / combinators, a tuple
+    # pattern or zip().filter() for the both-literals test are one program.  Only when it leaves the interpretable fragment are the
+    # clauses read off dominance between its parse sites and aggregates instead.
+    pf = ctx.need_fn(ep, R, r"^<metadata::VersionRange as syn::parse::Parse>::parse$")
+    try:
+        from . import absint as _A
+        rows = Q.decide_version_range_parse(ctx.epn, ctx.need_fn(ctx.epn, R, r"^<metadata::VersionRange as syn::parse::Parse>::parse$"))
+        ctx.notes["C19.R7.version_range_parse_decided_by"] = "interpretation over %d inputs" % len(rows)
+        dev = {}
+        for r in rows:
+            want = Q.expected_version_range(r)
+            n = len(r["tokens"])
+            form = "All" if n == 1 else ("Until" if r["tokens"][0][0] == "DD" else ("From" if n == 2 else "FromUntil"))
+            both_lit = form == "FromUntil" and r["tokens"][0][0] == "LIT" and r["tokens"][2][0] == "LIT"
+            key = "literal-pair-refused-iff-until<earliest" if both_lit else form
+            dev.setdefault(key, [])
+            if r["result"] != want or r["consumed"] != n:
+                dev[key].append("`%s`%s -> %s after %d of %d tokens (expected %s)" % (r["input"], (" with " + r["order"]) if r["order"] != "-" else "", cap(r["result"], 90), r["consumed"], n, cap(want, 90)))
+        DD = [bb for bb, t in pf.live_calls(r"ParseBuffer::<'a>::parse$") if any("token::DotDot" in g for g in t.get("gargs", []))]
+        VS = [bb for bb, t in pf.live_calls(r"ParseBuffer::<'a>::parse$") if any("VersionSpecifier" in g for g in t.get("gargs", []))]
+        ctx.check(R, "parse:token-sites", len(DD) >= 1 and len(VS) >= 2, "`..` parse sites: %d, version parse sites: %d" % (len(DD), len(VS)), pf)
+        text = {"All": "`..` alone parses to All", "Until": "`.. b` parses to Until(b)", "From": "`a ..` parses to From(a)",
+                "FromUntil": "`a .. b` (not both literals) parses to FromUntil(a, b), operands in source order",
+                "literal-pair-refused-iff-until<earliest": "two literals: FromUntil(a, b) when a <= b, Err exactly when b < a"}
+        for key in ("All", "Until", "From", "FromUntil", "literal-pair-refused-iff-until<earliest"):
+            bad = dev.get(key)
+            ctx.check(R, "parse:%s" % key, bad == [], "%s, consuming the whole input; deviating inputs: %s" % (text[key], "none" if bad == [] else (bad if bad else "clause not exercised")), pf)
+    except _A.LeavesFragment as e:
+        ctx.notes["C19.R7.version_range_parse_decided_by"] = "path facts (not interpretable: %s)" % e
+        _version_parse_by_paths(ctx, R, ep, pf, kinds)
     # (dropshot's own from_until refuses the same pairs, until < earliest: decided exactly by C05.E3)
     # ---- literals carry no pre-release / build metadata (semver_parts relies on it)
     # parse_semver is small and its leaves can be stubbed: it is decided by interpretation over every outcome of (parses?, pre-release
@@ -1263,7 +1342,7 @@ def r7_versions(ctx):
                   "parse_semver interpreted over %d cases: Ok(the parsed version) iff it parses with empty pre-release and build metadata, Err otherwise; deviating: %s" % (len(rows), wrong or "none"), ps)
     except _A.LeavesFragment as e:
         ctx.notes["C19.R7.parse_semver_decided_by"] = "path facts (not interpretable: %s)" % e
-        _parse_semver_by_paths(ctx, R, ep, q0, ps)
+        _parse_semver_by_paths(ctx, R, ep, _q(ctx, "ep", inline=False), ps)
     # normalised view: `parse_semver(&s).map(VersionSpecifier::Literal)` is `match parse_semver(&s) { Ok(v) => Ok(Literal(v)), .. }`
     sv = ctx.need_fn(ctx.epn, R, r"^<metadata::VersionSpecifier as syn::parse::Parse>::parse$")
     lits = [bb for bb, i, s in sv.aggregates(r"^metadata::VersionSpecifier$", "Literal")]
@@ -1641,5 +1720,120 @@ SELFTEST = [
     {'name': 'map-or-else-form-doc-from-nothing', 'kind': 'mutant', 'expect': ['C19.R1'], 'edits': [('dropshot_endpoint/src/endpoint.rs', '            let construct = if let Some(metadata) = metadata {\n                metadata.to_api_endpoint_fn(\n                    &dropshot,\n                    &name_str,\n                    &ApiEndpointKind::Regular(name),\n                    &doc,\n                )\n            } else {\n                quote! {\n                    unreachable!()\n                }\n            };\n', '            let construct = metadata.as_ref().map_or_else(\n                || quote! { unreachable!() },\n                |metadata| {\n                    metadata.to_api_endpoint_fn(\n                        &dropshot,\n                        &name_str,\n                        &ApiEndpointKind::Regular(name),\n                        &ExtractedDoc::from_attrs(&[]),\n                    )\n                },\n            );\n')], 'why': '† (closure form) function-form endpoints lose their doc comment: trait and function forms document differently'},
     {'name': 'versions-default-by-map-or', 'kind': 'benign', 'edits': [('dropshot_endpoint/src/metadata.rs', '                versions: versions\n                    .map(|h| h.into_inner())\n                    .unwrap_or(VersionRange::All),\n            })\n        } else {\n            unreachable!', '                versions: versions.map_or(VersionRange::All, ParseWrapper::into_inner),\n            })\n        } else {\n            unreachable!')], 'why': 'behaviour-preserving: map(..).unwrap_or(All) written as map_or(All, ParseWrapper::into_inner)'},
     {'name': 'map-or-form-ignores-versions', 'kind': 'mutant', 'expect': ['C19.R2a'], 'edits': [('dropshot_endpoint/src/metadata.rs', '                versions: versions\n                    .map(|h| h.into_inner())\n                    .unwrap_or(VersionRange::All),\n            })\n        } else {\n            unreachable!', '                versions: versions.map_or(VersionRange::All, |_| VersionRange::All),\n            })\n        } else {\n            unreachable!')], 'why': '† (map_or form) a declared `versions` range is replaced by All'},
+]
+# ---- shapes of the third independent corpus (benign/C19-R10..R12, C05-R9, C05-R12, C09-R10), each with a mutant written on top of the refactored form
+_U = "dropshot_endpoint/src/util.rs"
+_T = "dropshot_endpoint/src/api_trait.rs"
+_AS_STATIC_MATCH = ("        match self {\n            ValidContentType::ApplicationJson => APPLICATION_JSON,\n            ValidContentType::ApplicationXWwwFormUrlencoded => {\n"
+                    "                APPLICATION_X_WWW_FORM_URLENCODED\n            }\n            ValidContentType::MultipartFormData => MULTIPART_FORM_DATA,\n        }\n")
+_FROM_STR_MATCH = ("        match s {\n            APPLICATION_JSON => Ok(ValidContentType::ApplicationJson),\n            APPLICATION_X_WWW_FORM_URLENCODED => {\n"
+                   "                Ok(ValidContentType::ApplicationXWwwFormUrlencoded)\n            }\n            MULTIPART_FORM_DATA => Ok(ValidContentType::MultipartFormData),\n"
+                   "            _ => Err(InvalidContentTypeError),\n        }\n")
+_ROWS = {"ApplicationJson": "    (ValidContentType::ApplicationJson, APPLICATION_JSON),\n",
+         "ApplicationXWwwFormUrlencoded": "    (ValidContentType::ApplicationXWwwFormUrlencoded, APPLICATION_X_WWW_FORM_URLENCODED),\n",
+         "MultipartFormData": "    (ValidContentType::MultipartFormData, MULTIPART_FORM_DATA),\n"}
+
+
+def _mime_table_edits(order):
+    return [(_U, "impl ValidContentType {\n    pub(crate) fn as_static_str", "const CONTENT_TYPE_TABLE: [(ValidContentType, &str); 3] = [\n" + "".join(_ROWS[v] for v in order) +
+             "];\n\nimpl ValidContentType {\n    pub(crate) fn as_static_str"),
+            (_U, _AS_STATIC_MATCH, "        CONTENT_TYPE_TABLE[*self as usize].1\n"),
+            (_U, _FROM_STR_MATCH, "        CONTENT_TYPE_TABLE\n            .iter()\n            .find_map(|(content_type, mime)| (*mime == s).then_some(*content_type))\n            .ok_or(InvalidContentTypeError)\n")]
+
+
+_DS_MIME_MATCH = ("        match mime_type {\n            CONTENT_TYPE_OCTET_STREAM => Ok(Self::Bytes),\n            CONTENT_TYPE_JSON => Ok(Self::Json),\n            CONTENT_TYPE_URL_ENCODED => Ok(Self::UrlEncoded),\n"
+                  "            CONTENT_TYPE_MULTIPART_FORM_DATA => Ok(Self::MultipartFormData),\n            _ => Err(mime_type.to_string()),\n        }")
+
+
+def _ds_mime_table(rows):
+    return ("        const BODY_TYPES: [(&str, ApiEndpointBodyContentType); %d] = [\n%s        ];\n"
+            "        BODY_TYPES\n            .iter()\n            .find_map(|(known, content_type)| (*known == mime_type).then(|| content_type.clone()))\n            .ok_or_else(|| mime_type.to_string())"
+            % (len(rows), "".join("            (%s, ApiEndpointBodyContentType::%s),\n" % r for r in rows)))
+
+
+_DS_ROWS = [("CONTENT_TYPE_OCTET_STREAM", "Bytes"), ("CONTENT_TYPE_JSON", "Json"), ("CONTENT_TYPE_URL_ENCODED", "UrlEncoded"), ("CONTENT_TYPE_MULTIPART_FORM_DATA", "MultipartFormData")]
+_FROM_UNTIL_OLD = ("        if until < earliest {\n            return Err(\n                \"versions in a from-until version range must be provided \\\n                 in order\",\n            );\n        }\n\n"
+                   "        Ok(ApiEndpointVersions::FromUntil(OrderedVersionPair {\n            earliest,\n            until,\n        }))\n")
+
+
+def _from_until_then(fields):
+    return ("        let in_order = earliest <= until;\n        in_order\n            .then(|| ApiEndpointVersions::FromUntil(OrderedVersionPair { %s }))\n"
+            "            .ok_or(\"versions in a from-until version range must be provided in order\")\n" % fields)
+
+
+_TRAIT_NEW_OLD = ("        let metadata = parse_endpoint_metadata(&name_str, attr, errors);\n        let params = EndpointParams::new(\n            dropshot,\n            &f.sig,\n"
+                  "            RqctxKind::Trait { trait_ident, context_ident },\n            errors,\n        );\n\n        match (metadata, params) {\n            (Some(metadata), Some(params)) => {\n"
+                  "                Ok(Self { f, attr, trait_ident, metadata, params })\n            }\n            // This means that something failed.\n            (_, params) => {\n"
+                  "                Err(ApiItemErrorSummary { has_param_errors: params.is_none() })\n            }\n        }\n")
+
+
+def _trait_new_zip(attr_expr):
+    return ("        let metadata = parse_endpoint_metadata(&name_str, %s, errors);\n        let params = EndpointParams::new(\n            dropshot,\n            &f.sig,\n"
+            "            RqctxKind::Trait { trait_ident, context_ident },\n            errors,\n        );\n\n        let has_param_errors = params.is_none();\n        metadata\n            .zip(params)\n"
+            "            .map(|(metadata, params)| Self { f, attr, trait_ident, metadata, params })\n            .ok_or(ApiItemErrorSummary { has_param_errors })\n" % attr_expr)
+
+
+_ORDER_CHECK_OLD = [e for e in SELFTEST if e["name"] == "literal-order-check-in-helper"][0]["edits"][0][1]
+_PARSE_SEMVER_OLD = [e for e in SELFTEST if e["name"] == "parse-semver-as-match"][0]["edits"][0][1]
+
+
+def _order_check_zip(op):
+    return [(_M, _ORDER_CHECK_OLD, "                let out_of_order = earliest\n                    .as_literal()\n                    .zip(latest.as_literal())\n"
+                 "                    .filter(|(earliest_semver, latest_semver)| latest_semver %s earliest_semver);\n"
+                 "                if let Some((earliest_semver, latest_semver)) = out_of_order {\n                    return Err(syn::Error::new_spanned(\n                        dotdot.to_token_stream(),\n"
+                 "                        format!(\"\\\"from\\\" version ({}) must be earlier than \\\"until\\\" version ({})\", earliest_semver, latest_semver),\n                    ));\n                }\n" % op),
+            (_M, "fn parse_semver(v: &syn::LitStr) -> syn::Result<semver::Version> {",
+             "impl VersionSpecifier {\n    fn as_literal(&self) -> Option<&semver::Version> {\n        match self {\n            VersionSpecifier::Literal(v) => Some(v),\n"
+             "            VersionSpecifier::Identifier(_) => None,\n        }\n    }\n}\n\nfn parse_semver(v: &syn::LitStr) -> syn::Result<semver::Version> {")]
+
+
+def _parse_semver_table(rows):
+    body = {"pre": "        (|s| s.pre != semver::Prerelease::EMPTY, \"semver pre-release string is not supported here\"),\n",
+            "build": "        (|s| s.build != semver::BuildMetadata::EMPTY, \"semver build metadata is not supported here\"),\n"}
+    return [(_M, _PARSE_SEMVER_OLD, "fn parse_semver(v: &syn::LitStr) -> syn::Result<semver::Version> {\n    const UNSUPPORTED: [(fn(&semver::Version) -> bool, &str); %d] = [\n%s    ];\n"
+                 "    let parsed = v.value().parse::<semver::Version>().map_err(|e| {\n        syn::Error::new_spanned(v, format!(\"expected semver: {}\", e))\n    })?;\n"
+                 "    let unsupported = UNSUPPORTED.iter().find_map(|(is_present, message)| is_present(&parsed).then_some(message));\n"
+                 "    match unsupported {\n        Some(message) => Err(syn::Error::new_spanned(v, String::from(*message))),\n        None => Ok(parsed),\n    }\n}\n\n"
+                 % (len(rows), "".join(body[r] for r in rows)))]
+
+
+_OPERATION_OLD = ("            let mut operation = openapiv3::Operation::default();\n            operation.operation_id = Some(endpoint.operation_id.clone());\n"
+                  "            operation.summary.clone_from(&endpoint.summary);\n            operation.description.clone_from(&endpoint.description);\n"
+                  "            operation.tags.clone_from(&endpoint.tags);\n            operation.deprecated = endpoint.deprecated;\n")
+
+
+def _operation_literal(summary_src):
+    return ("            let mut operation = openapiv3::Operation {\n                operation_id: Some(endpoint.operation_id.clone()),\n                summary: endpoint.%s.clone(),\n"
+            "                description: endpoint.description.clone(),\n                tags: endpoint.tags.clone(),\n                deprecated: endpoint.deprecated,\n"
+            "                ..Default::default()\n            };\n" % summary_src)
+
+
+SELFTEST += [
+    {"name": "mime-strings-in-one-const-table", "kind": "benign", "edits": _mime_table_edits(["ApplicationJson", "ApplicationXWwwFormUrlencoded", "MultipartFormData"]),
+     "why": "behaviour-preserving: as_static_str / from_str rebuilt on one const table of (variant, string) rows, indexed by discriminant / searched by find_map"},
+    {"name": "const-table-rows-out-of-declaration-order", "kind": "mutant", "expect": ["C19.R5"], "edits": _mime_table_edits(["MultipartFormData", "ApplicationJson", "ApplicationXWwwFormUrlencoded"]),
+     "why": "† (table form) the table is indexed by discriminant but its rows are not in declaration order: `content_type = \"application/json\"` validates as ApplicationJson and emits \"multipart/form-data\""},
+    {"name": "dropshot-mime-table-forgets-multipart", "kind": "mutant", "expect": ["C19.R5"], "edits": [(_A, _DS_MIME_MATCH, _ds_mime_table(_DS_ROWS[:3]))],
+     "why": "† (const-table form of from_mime_type) the macro accepts and emits multipart/form-data, ApiEndpoint::new panics on it"},
+    {"name": "from-until-by-bool-then", "kind": "benign", "edits": [(_A, _FROM_UNTIL_OLD, _from_until_then("earliest, until"))],
+     "why": "behaviour-preserving: early `return Err` on until < earliest written as (earliest <= until).then(|| FromUntil(..)).ok_or(..); the pair is built inside the closure"},
+    {"name": "then-form-pair-fields-swapped", "kind": "mutant", "expect": ["C19.R7"], "edits": [(_A, _FROM_UNTIL_OLD, _from_until_then("earliest: until, until: earliest"))],
+     "why": "† (then form) from_until(earliest, until) stores its first argument as `until`: the macro's from_until(a, b) registers the wrong range"},
+    {"name": "trait-item-built-by-zip", "kind": "benign", "edits": [(_T, _TRAIT_NEW_OLD, _trait_new_zip("attr"))],
+     "why": "behaviour-preserving: `match (metadata, params) { (Some, Some) => Ok(Self{..}), .. }` written as metadata.zip(params).map(|(m, p)| Self{..}).ok_or(..)"},
+    {"name": "zip-form-metadata-from-first-attribute", "kind": "mutant", "expect": ["C19.R1"], "edits": [(_T, _TRAIT_NEW_OLD, _trait_new_zip("&f.attrs[0]"))],
+     "why": "† (zip form) a trait endpoint's metadata is parsed from the method's first attribute (e.g. a doc comment) instead of its #[endpoint] attribute"},
+    {"name": "literal-order-check-by-zip-filter", "kind": "benign", "edits": _order_check_zip("<"),
+     "why": "behaviour-preserving: the both-literals test written as a.as_literal().zip(b.as_literal()).filter(|(a, b)| b < a) + if let Some(..)"},
+    {"name": "zip-filter-form-refuses-equal-bounds", "kind": "mutant", "expect": ["C19.R7"], "edits": _order_check_zip("<="),
+     "why": "† (zip/filter form) the one-version range \"1.0.0\"..\"1.0.0\" is refused"},
+    {"name": "parse-semver-by-predicate-table", "kind": "benign", "edits": _parse_semver_table(["pre", "build"]),
+     "why": "behaviour-preserving: the and_then chain written as `?` plus a const table of (predicate fn, message) rows searched by find_map"},
+    {"name": "predicate-table-forgets-build-metadata", "kind": "mutant", "expect": ["C19.R7"], "edits": _parse_semver_table(["pre"]),
+     "why": "† (table form) a literal with build metadata is accepted; semver_parts then silently drops it from the emitted version"},
+    {"name": "operation-built-by-struct-literal", "kind": "benign", "edits": [(_A, _OPERATION_OLD, _operation_literal("summary"))],
+     "why": "behaviour-preserving: default() + five assignments / clone_from written as one struct literal with ..Default::default()"},
+    {"name": "struct-literal-summary-from-description", "kind": "mutant", "expect": ["C19.R6"], "edits": [(_A, _OPERATION_OLD, _operation_literal("description"))],
+     "why": "† (struct-literal form) the document's summary shows the description text"},
 ]
 LEVEL_TEXT += " Also (R10 = C06.R1): every endpoint scan of the document generator is filtered by the document's version."
